@@ -20,6 +20,7 @@ import Driver.Cmd.PyIRTr
 import Driver.Cmd.PyIRCo
 import Driver.Cmd.PyIROl
 import Driver.Cmd.PyIRCli
+import Driver.Cmd.PyIRCn
 /-
   Line-protocol driver: one operation per line on stdin, one canonical answer per line on
   stdout.  Byte strings and texts travel as hex.  Imports no Mathlib (so it links).
@@ -29,7 +30,7 @@ open Driver
 
 def allCommands : List (String × Cmd) :=
   Driver.Kevent.commands ++ Driver.Pairing.commands ++ Driver.Render.commands ++ Driver.Callstacks.commands ++ Driver.TraceCodes.commands ++ Driver.Filters.commands ++ Driver.Format.commands ++ Driver.OsLog.commands ++ Driver.Flags.commands ++ Driver.Trace.commands ++ Driver.Container.commands ++ Driver.TracePipeline.commands ++ Driver.EndToEnd.commands ++ Driver.PyIR.commands ++ Driver.PyIRRd.commands ++
-  Driver.PyIRVn.commands ++ Driver.PyIRFl.commands ++ Driver.PyIRFm.commands ++ Driver.PyIRTr.commands ++ Driver.PyIRCo.commands ++ Driver.PyIROl.commands ++ Driver.PyIRCli.commands
+  Driver.PyIRVn.commands ++ Driver.PyIRFl.commands ++ Driver.PyIRFm.commands ++ Driver.PyIRTr.commands ++ Driver.PyIRCo.commands ++ Driver.PyIROl.commands ++ Driver.PyIRCli.commands ++ Driver.PyIRCn.commands
 
 def dispatch (line : String) : String :=
   match (line.trimAscii.toString.splitOn " ").filter (· ≠ "") with
